@@ -120,4 +120,20 @@ func genC06(g *G, n int, out io.Writer) {
 			enc.Encode(c)
 		}
 	}
+	// source maps: the same element described by entries in several source-map nodes (declaration and use site);
+	// whichever entry the index keeps, it must be the same one in every run
+	for i := 0; i < 3; i++ {
+		var nodes []map[string]any
+		for k := 0; k < 3; k++ {
+			nodes = append(nodes, map[string]any{"@id": nodeId(k), "@type": []string{NS + "T"}})
+		}
+		for m := 0; m < 4+i; m++ {
+			lid := fmt.Sprintf("%ssm/%d/lexical/e", NodeNS, m)
+			nodes = append(nodes, map[string]any{"@id": fmt.Sprintf("%ssm/%d", NodeNS, m), "@type": []string{SM + "SourceMap"}, SM + "lexical": []any{map[string]any{"@id": lid}}})
+			nodes = append(nodes, map[string]any{"@id": lid, SM + "element": nodeId(m % 3), SM + "value": fmt.Sprintf("[(%d,%d)-(%d,%d)]", m+1, m+2, m+10, m+3)})
+		}
+		nodes = append(nodes, map[string]any{"@id": NodeNS + "info", "@type": []string{DOC + "BaseUnitSourceInformation"}, DOC + "rootLocation": "file:///root.raml"})
+		b, _ := json.Marshal(nodes)
+		enc.Encode(caseHead{Op: "c06", Id: 600 + i, Profile: okProfile, Data: string(b)})
+	}
 }
